@@ -634,4 +634,51 @@ def resolve (w : World) (univ : List Feat) (tg : Bool) (node : Node) (ign : List
     else Res.empty
 termination_by budget w ign
 
+/-! ## B.2 spellings of relative locations
+
+A basin location may spell the same file in many ways (`./x`, `sub/../x`, `../dir/x`).  dclab
+never compares path strings when it cuts cycles (only basin keys, see `nextIgnored`), so
+`resolution_terminates` holds for every spelling; the harness resolves spellings physically
+(`os.path.realpath`).  `normalize` is the lexical normal form (valid without symlinked
+directories) used to state that a cycle test on *normalised* locations cannot be fooled by
+re-spelling. -/
+
+inductive Seg where
+  | up | cur | nm (n : Nat)
+  deriving DecidableEq, Repr
+
+/-- lexical normalisation with an explicit stack (`acc` = reversed prefix already normalised) -/
+def normAcc : List Seg → List Seg → List Seg
+  | acc, [] => acc.reverse
+  | acc, .cur :: t => normAcc acc t
+  | acc, .nm n :: t => normAcc (.nm n :: acc) t
+  | .nm _ :: acc, .up :: t => normAcc acc t
+  | [], .up :: t => normAcc [.up] t
+  | .up :: acc, .up :: t => normAcc (.up :: .up :: acc) t
+  | .cur :: acc, .up :: t => normAcc (.up :: .cur :: acc) t
+
+def normalize (p : List Seg) : List Seg := normAcc [] p
+
+/-! ## B.3 the verification decision and caches of it
+
+`idMatch` is a pure function of (referrer identifier, basin identifier, mapping mode): what was
+opened before cannot influence it.  `cachedVerify key` models a process-wide cache of successful
+verifications in front of it. -/
+
+structure VQ where
+  loc : Nat                     -- basin file (location and modification stamp)
+  refRid : Option Ident
+  basRid : Option Ident         -- determined by `loc`
+  mapped : Bool
+
+def VQ.decide (q : VQ) : Bool := idMatch q.refRid q.basRid q.mapped
+
+def cachedVerify [DecidableEq κ] (key : VQ → κ) (cache : List κ) (q : VQ) : Bool × List κ :=
+  if cache.contains (key q) then (true, cache)
+  else if q.decide then (true, key q :: cache) else (false, cache)
+
+def runVerify [DecidableEq κ] (key : VQ → κ) : List κ → List VQ → List Bool
+  | _, [] => []
+  | cache, q :: t => (cachedVerify key cache q).1 :: runVerify key (cachedVerify key cache q).2 t
+
 end DclabModel.Basin
